@@ -72,6 +72,7 @@ type Options struct {
 	Unbuffered      bool // file will be read through the unbuffered path: directories <= 85 entries, values <= 1024
 	PlainStrings    bool
 	FirstIFD        int  // > 0: offset of IFD0 (the bytes between the TIFF header and it are padding)
+	BigDims         bool // image dimensions beyond 65535 (LONG)
 	CameraBias      bool // exposure compensation the way cameras write it (n/100, n/10, n/6 ... up to +-5 EV: numerators beyond +-127)
 	Arrays          bool // ISOSpeedRatings with 3..5 SHORT / 2..4 LONG values and StripOffsets / StripByteCounts with 2..5 entries (stored out of line; the first value is the reported one)
 	LongText        bool // one or two of ImageDescription / Software / Copyright are 1023..20000 bytes long (around and beyond the readers' 1 KiB / 4 KiB windows)
@@ -271,10 +272,19 @@ func GenRecord(rt *rapid.T, o Options) *Record {
 		if v == 0 {
 			v = rapid.Uint32Range(1, 65535).Draw(rt, label)
 		}
+		if o.BigDims && Chance(rt, label+".big", 0.5) { // panoramas, scans: a LONG beyond 16 bits
+			v = uint32(rapid.SampledFrom([]int{65536, 65537, 70000, 131072, 1 << 24, 1<<31 - 1}).Draw(rt, label+".bigv"))
+		}
 		return &v
 	}
 	r.Width, r.Height = dim("width"), dim("height")
 	r.WidthLong, r.HeightLong = rapid.Bool().Draw(rt, "widthLong"), rapid.Bool().Draw(rt, "heightLong")
+	if r.Width != nil && *r.Width > 65535 {
+		r.WidthLong = true
+	}
+	if r.Height != nil && *r.Height > 65535 {
+		r.HeightLong = true
+	}
 	r.Orientation = optU16(rt, "orientation", p, rapid.Uint16Range(1, 8))
 	if Chance(rt, "strip?", p/2) {
 		r.StripShort = rapid.Bool().Draw(rt, "stripShort")
@@ -305,6 +315,9 @@ func GenRecord(rt *rapid.T, o Options) *Record {
 	}
 	r.PixelX, r.PixelY = dim("pixelx"), dim("pixely")
 	r.PixelLong = rapid.Bool().Draw(rt, "pixelLong")
+	if r.PixelX != nil && *r.PixelX > 65535 || r.PixelY != nil && *r.PixelY > 65535 {
+		r.PixelLong = true
+	}
 	r.Modify = genStamp(rt, "modify", o)
 	r.Original = genStamp(rt, "original", o)
 	r.Create = genStamp(rt, "create", o)
